@@ -62,8 +62,12 @@ def array_support_binary(func):
     # like array_support, for functions of two values: the second one can be an array too (both are broadcast)
     single = array_support(func)
     def iterator(x, y, **kwargs):
-        if isinstance(y, (list, np.ndarray)) and np.asarray(y).ndim > 0:
-            x_arr, y_arr = np.asarray(x), np.asarray(y)
+        if isinstance(y, (list, tuple)):
+            y = np.array(y, dtype=object)   # python integers stay python integers (numpy would turn a list mixing integers below and above 2**63 into doubles)
+        if isinstance(x, (list, tuple)):
+            x = np.array(x, dtype=object)
+        if isinstance(y, np.ndarray) and y.ndim > 0:
+            x_arr, y_arr = np.asarray(x), y
             x_b, y_b = np.broadcast_arrays(x_arr.astype(object), y_arr.astype(object))
             vals = [func(u, v, **kwargs) for u, v in zip(x_b.ravel().tolist(), y_b.ravel().tolist())]
             if x_arr.dtype == object or y_arr.dtype == object:
